@@ -1,6 +1,7 @@
 package main
 
 import (
+	"bytes"
 	"fmt"
 	"sort"
 	"sync"
@@ -121,6 +122,56 @@ func c02EndToEnd(c *Ctx) {
 		}
 		_ = a.Close()
 		_ = x.Close()
+	}
+
+	// what was accepted is what arrives: the caller may reuse its buffer as soon as Send has returned, whatever the
+	// size of the message (the library copies it; pooled sizes and the sizes above the largest pool class alike)
+	for _, tr := range []e2eTransport{e2eTransports[0], e2eTransports[2]} {
+		for _, kind := range []string{"pair", "push-pull"} {
+			var tx, rx mangos.Socket
+			if kind == "pair" {
+				tx, _ = pair.NewSocket()
+				rx, _ = pair.NewSocket()
+			} else {
+				tx, _ = push.NewSocket()
+				rx, _ = pull.NewSocket()
+			}
+			_ = rx.SetOption(mangos.OptionRecvDeadline, 2*time.Second)
+			_ = tx.SetOption(mangos.OptionSendDeadline, 2*time.Second)
+			l, err := rx.NewListener(tr.addr(9300), nil)
+			if err != nil || l.Listen() != nil || tx.Dial(l.Address()) != nil {
+				_ = tx.Close()
+				_ = rx.Close()
+				continue
+			}
+			time.Sleep(40 * time.Millisecond)
+			for _, size := range []int{100, 8192, 65535, 65536, 65537, 100000} {
+				want := patterned(uint64(size), size)
+				buf := append([]byte{}, want...)
+				if err := tx.Send(buf); err != nil {
+					break
+				}
+				for i := range buf {
+					buf[i] = 0xEE // the caller's buffer is the caller's again
+				}
+				got, err := rx.Recv()
+				class := fmt.Sprintf("%s-e2e buffer-reuse %s class=%d", kind, tr.name, lenClass(size))
+				c.Class(class, true)
+				ok := err == nil && bytes.Equal(got, want)
+				c.T.Line(class, fmt.Sprintf("wire.fit 0 %d", size), map[bool]string{true: "delivered", false: "lost"}[ok])
+				if !ok {
+					what := fmt.Sprintf("err=%v", err)
+					if err == nil {
+						what = fmt.Sprintf("%d bytes beginning %.8x, sent %.8x", len(got), got, want)
+					}
+					c.Violate(fmt.Sprintf("%s e2e (%s): a %d-byte message whose buffer the sender reused after Send had returned did not arrive as it was sent (%s)", kind, tr.name, size, what),
+						map[string]interface{}{"transport": tr.name, "pattern": kind, "size": size})
+					break
+				}
+			}
+			_ = tx.Close()
+			_ = rx.Close()
+		}
 	}
 
 	// PUSH/PULL multiset and per-connection order with k sender goroutines and n pullers
